@@ -296,3 +296,162 @@ def register_cache(reg, stubs, world):
                      doc='a policy directory counts as updated exactly when its own modification time or that of one of '
                          'its entries is newer than the stamp kept for it (a deletion or creation changes only the '
                          'directory\'s own time, a rewrite only the file\'s); the stamp kept afterwards dominates all of them'))
+
+
+# ---------------------------------------------------------------------------------------------------------------------
+# The loader chain (C09, C10, C11, C12): _record_file_rules, _load_policy_file, load_rules
+# ---------------------------------------------------------------------------------------------------------------------
+parse_ok = z3.Function('parse_ok', Str, Bool)                 # the text is JSON/YAML whose top level is a mapping (or empty)
+from pyvc.values import MapSV as _MapSV
+parsed_of = z3.Function('parsed_of', Str, _MapSV)             # that mapping: policy name -> rule value
+
+
+def register_chain(reg, stubs, world):
+    from specs.wf import wf_tree, wf_eval, tree_axioms, eval_axioms, fp
+    from .deprecated import rule_obj_ok
+    from .enforce import ruledefault_ok
+
+    # ------------------------------------------------------------------ parse_file_contents (trusted: yaml / json)
+    def pfc_post(cx, out):
+        eng = cx.eng
+        d = V.s(cx['data'])
+        if out.kind != 'ret':
+            return [z3.And(out.exc.cname == 'ValueError', z3.Not(parse_ok(d)))]
+        r = out.value
+        k = z3.String('pf!k')
+        return [parse_ok(d), V.is_obj(r), clsof(V.ref(r)) == eng.cid('dict'), V.ref(r) >= cx.st0.ap,
+                eng.val(out.st, r) == V.dict(parsed_of(d)),
+                qforall([k], z3.Not(V.is_obj(z3.Select(parsed_of(d), k))), patterns=[z3.Select(parsed_of(d), k)])]
+    reg.add(Contract('policy:parse_file_contents', pre=lambda cx: [V.is_str(cx['data'])], post=pfc_post, raises=('ValueError',),
+                     allocates=True, trusted=True, preserves=('wf_tree', 'wf_eval', 'pr'),
+                     assumptions=('TRUSTED (jsonutils.loads / yaml.safe_load): returns a fresh dict parsed_of(data) of plain values '
+                                  'when the text is a JSON/YAML mapping (or empty), raises ValueError otherwise; a file whose '
+                                  'top-level YAML value is a scalar or a list is outside this contract (the real code then fails '
+                                  'with AttributeError in Rules.load)',),
+                     doc='the only place policy text is turned into a mapping'))
+
+    # ------------------------------------------------------------------ parse_rule (assumed: the parser driver)
+    def pr_post(cx, out):
+        eng = cx.eng
+        if out.kind != 'ret':
+            return [False]
+        r = out.value
+        return [V.is_obj(r), V.ref(r) >= cx.st0.ap, eng.isinst(r, 'BaseCheck'), wf_tree(r)]
+
+    def fresh_only_frame(cx, f, old, new):
+        r = z3.Int('fo!r')
+        return [qforall([r], z3.Implies(r < cx.st0.ap, z3.Select(new, r) == z3.Select(old, r)))]
+    reg.add(Contract('_parser:parse_rule', post=pr_post, allocates=True, trusted=True,
+                     modifies=('rules', 'rule', 'kind', 'match', '$val'), frame=fresh_only_frame,
+                     preserves=('wf_tree', 'wf_eval', 'pr'),
+                     assumptions=('ASSUMED (property C02, decided there by the reducer/_parse_check/result contracts and the '
+                                  'bounded language stand-in, not composed deductively): parse_rule returns, for every value, a '
+                                  'fresh well-formed tree of built-in checks and raises nothing',),
+                     doc='the parser driver as its callers in the loader see it'))
+
+    def all_text(d):
+        """every rule value in the file is a string (the deprecated list-of-lists form is outside the loader-chain
+        contracts; its parsing is C01/C02's business)"""
+        k = z3.String('at!k')
+        return qforall([k], z3.Implies(z3.Select(parsed_of(d), k) != ABSENT, V.is_str(z3.Select(parsed_of(d), k))),
+                       patterns=[z3.Select(parsed_of(d), k)])
+
+    # ------------------------------------------------------------------ _record_file_rules
+    def file_rules_ok(eng, st, s):
+        F = z3.Select(st.H('file_rules'), V.ref(s))
+        fm = V.m(z3.Select(st.H('$val'), V.ref(F)))
+        k = z3.String('fr!k')
+        e = z3.Select(fm, k)
+        return z3.And(V.is_obj(F), clsof(V.ref(F)) == eng.cid('dict'), V.is_dict(z3.Select(st.H('$val'), V.ref(F))),
+                      qforall([k], z3.Implies(e != ABSENT, rule_obj_ok(eng, st, e, 'RuleDefault')), patterns=[e]))
+
+    def registry_ok(eng, st, s):
+        G = z3.Select(st.H('registered_rules'), V.ref(s))
+        gm = V.m(z3.Select(st.H('$val'), V.ref(G)))
+        k = z3.String('rr!k')
+        e = z3.Select(gm, k)
+        return z3.And(V.is_obj(G), clsof(V.ref(G)) == eng.cid('dict'), V.is_dict(z3.Select(st.H('$val'), V.ref(G))),
+                      qforall([k], z3.Implies(e != ABSENT, rule_obj_ok(eng, st, e, 'RuleDefault')), patterns=[e]))
+
+    def rfr_pre(cx):
+        eng, st, s = cx.eng, cx.st0, cx['self']
+        F = z3.Select(st.H('file_rules'), V.ref(s))
+        G = z3.Select(st.H('registered_rules'), V.ref(s))
+        return [('enforcer-object', z3.And(V.is_obj(s), eng.isinst_ref(V.ref(s), 'Enforcer'))),
+                ('file-rules-record-holds-rule-defaults', file_rules_ok(eng, st, s)),
+                ('registry-holds-rule-defaults', registry_ok(eng, st, s)),
+                ('record-and-registry-are-different-objects', V.ref(F) != V.ref(G)),
+                ('data-is-text', V.is_str(cx['data'])),
+                ('rule-values-in-the-file-are-strings', all_text(V.s(cx['data']))),
+                ('overwrite-is-a-boolean', V.is_bool(cx['overwrite']))]
+
+    def rfr_post(cx, out):
+        eng, st, s1, s = cx.eng, cx.st0, out.st, cx['self']
+        d = V.s(cx['data'])
+        if out.kind != 'ret':
+            return [('ValueError-only-for-unparseable-text', z3.And(out.exc.cname == 'ValueError', z3.Not(parse_ok(d))))]
+        ow = truthy(cx['overwrite'])
+        F0, F1 = eng.get(st, s, 'file_rules'), eng.get(s1, s, 'file_rules')
+        m0, m1 = V.m(eng.val(st, F0)), V.m(eng.val(s1, F1))
+        P = parsed_of(d)
+        k = z3.String('rf!k')
+        e1 = z3.Select(m1, k)
+        return [('only-for-parseable-text', parse_ok(d)),
+                ('record-stays-a-record-of-rule-defaults', file_rules_ok(eng, s1, s)),
+                ('overwrite-starts-a-new-record', z3.Implies(ow, z3.And(V.ref(F1) >= st.ap, qforall([k], z3.Implies(
+                    z3.Select(P, k) == ABSENT, e1 == ABSENT))))),
+                ('update-keeps-the-record-object-and-its-other-entries', z3.Implies(z3.Not(ow), z3.And(F1 == F0, qforall([k], z3.Implies(
+                    z3.Select(P, k) == ABSENT, e1 == z3.Select(m0, k)))))),
+                ('every-name-in-the-file-is-recorded-with-its-text', qforall([k], z3.Implies(z3.Select(P, k) != ABSENT, z3.And(
+                    e1 != ABSENT, V.ref(e1) >= st.ap, eng.get(s1, e1, '_name') == V.str(k),
+                    eng.get(s1, e1, '_check_str') == z3.Select(P, k))))),
+                ('rule-store-and-registry-untouched', z3.And(
+                    eng.get(s1, s, 'rules') == eng.get(st, s, 'rules'),
+                    eng.get(s1, s, 'registered_rules') == eng.get(st, s, 'registered_rules'),
+                    eng.val(s1, eng.get(st, s, 'registered_rules')) == eng.val(st, eng.get(st, s, 'registered_rules'))))]
+
+    def rfr_inv(L):
+        eng, st, s = L.eng, L.st, L.cx['self']
+        d = V.s(L.cx['data'])
+        P = parsed_of(d)
+        K = keys_of(P)
+        ow = truthy(L.cx['overwrite'])
+        F0 = eng.get(L.cx.st0, s, 'file_rules')
+        F1 = eng.get(st, s, 'file_rules')
+        m0, m1 = V.m(eng.val(L.cx.st0, F0)), V.m(eng.val(st, F1))
+        k = z3.String('ri!k')
+        j = z3.Int('ri!j')
+        e1 = z3.Select(m1, k)
+        visited = lambda kk: z3.Exists([j], z3.And(j >= 0, j < L.i, K[j] == kk))
+        return [('record-object-fixed-during-the-loop', z3.And(F1 == eng.get(L.entry, s, 'file_rules'),
+                                                             z3.If(ow, V.ref(F1) >= L.cx.st0.ap, F1 == F0))),
+                ('record-stays-well-formed', file_rules_ok(eng, st, s)),
+                ('visited-names-recorded', qforall([j], z3.Implies(z3.And(j >= 0, j < L.i), z3.And(
+                    z3.Select(m1, K[j]) != ABSENT, V.ref(z3.Select(m1, K[j])) >= L.cx.st0.ap,
+                    eng.get(st, z3.Select(m1, K[j]), '_name') == V.str(K[j]),
+                    eng.get(st, z3.Select(m1, K[j]), '_check_str') == z3.Select(P, K[j]))))),
+                ('names-not-in-the-file-as-before', qforall([k], z3.Implies(z3.Select(P, k) == ABSENT,
+                                                                          e1 == z3.If(ow, ABSENT, z3.Select(m0, k))))),
+                ('rule-store-and-registry-untouched', z3.And(
+                    eng.get(st, s, 'rules') == eng.get(L.cx.st0, s, 'rules'),
+                    eng.get(st, s, 'registered_rules') == eng.get(L.cx.st0, s, 'registered_rules'),
+                    eng.val(st, eng.get(st, s, 'registered_rules')) == eng.val(L.cx.st0, eng.get(st, s, 'registered_rules'))))]
+    RFR_MODS = ('file_rules', '$val', '_name', '_check_str', '_check', '_description', '_deprecated_rule',
+                '_deprecated_for_removal', '_deprecated_reason', '_deprecated_since', 'scope_types', 'rules', 'rule', 'kind', 'match')
+
+    def rfr_frame(cx, f, old, new):
+        # of the objects that existed before: the enforcer's file_rules slot, and (update mode) the record dict
+        eng, s = cx.eng, cx['self']
+        r = z3.Int('rfr!r')
+        F0 = cx.old(s, 'file_rules')
+        if f == 'file_rules':
+            return [qforall([r], z3.Implies(z3.And(r < cx.st0.ap, r != V.ref(s)), z3.Select(new, r) == z3.Select(old, r)))]
+        if f == '$val':
+            return [qforall([r], z3.Implies(z3.And(r < cx.st0.ap, r != V.ref(F0)), z3.Select(new, r) == z3.Select(old, r)))]
+        return [qforall([r], z3.Implies(r < cx.st0.ap, z3.Select(new, r) == z3.Select(old, r)))]
+    reg.add(Contract('policy:Enforcer._record_file_rules', pre=rfr_pre, post=rfr_post, raises=('ValueError',),
+                     modifies=RFR_MODS, frame=rfr_frame, allocates=True,
+                     loops={1: LoopSpec(rfr_inv, havoc=RFR_MODS, fresh_only=False)},
+                     heap_axioms=tree_axioms, props=('C11', 'C12'),
+                     doc='the record of file-defined rules that _handle_deprecated_rule consults: rebuilt (overwrite) or '
+                         'extended (update) with one fresh RuleDefault per name in the file, nothing else touched'))
